@@ -45,7 +45,7 @@ CLAIMED = {
         "histories, using the proved reachable-state invariants Inv/ClsInv/PendInv and the integer-bounded analysis of the `used -= 1` counter "
         "dance); delivery_facts — a delivering step implies issuing client, matching redirect_uri, code unused/unrevoked/unexpired and live "
         "grant at minting time; replay_revokes for the OIDC endpoint. Tie: ALL interleavings of 2 and 3 concurrent redemptions + generated "
-        "histories, per-step correspondence of outcome and counters, independent delivery-counting oracle.",
+        "histories (incl. PKCE-bound codes, requests with a claims parameter, single sign-on via session cookies to the client's other redirect_uri), per-step correspondence of outcome and counters, independent delivery-counting oracle.",
    note="Interleaving granularity is the API step; thread-level races inside one call are runtime behaviour outside the model. ID-token signing failure path not exercised.",
    technique="Lean 4 proof: history invariant by induction + decision-logic theorems; exhaustive schedule enumeration for the correspondence", ref="6 C02"),
  "C05": dict(
@@ -76,20 +76,19 @@ CLAIMED = {
         "(typed_slot_lossless, wrong_type_rejected). The verify-override chain of every Message subclass is regenerated from the source (AST) "
         "on every run and the kernel re-decides that exactly the two known classes do not chain. Tie: exhaustive cell check on the real "
         "classes (each required parameter removed/emptied, each enumerated parameter outside its set, each typed parameter given every other "
-        "JSON type) + correspondence of the generic verify and of _add_value with the model.",
-   note="Bodies of the class-specific cross-field rules are not modelled (exercised by the oracle on the real code only); embedded signed objects are covered by C16/C08.",
+        "JSON type) + correspondence of the generic verify and of _add_value with the model; the cross-parameter rules of the seven classes that carry one (provider configuration, authorization request, client metadata, registration request / response, ID token audience, logout token) are modelled and proved to accept only what the rule states (…_accept theorems), tied by truth tables over the real classes.",
+   note="Cross-field rules of the remaining subclasses (identity assurance, CIBA, device flow) are exercised by the oracle on the real code only; embedded signed objects are covered by C16/C08.",
    technique="Lean 4 proof (decision logic + kernel-decided obligation over the regenerated verify-chain table) + exhaustive cell correspondence", ref="6 C11"),
  "C06": dict(
    text="Lean theorems: acceptance by verify_uri implies a registered URI with equal scheme, path, params, query multimap, no fragment and equal "
         "authority up to the native-loopback port rule (accept_means_registered), unclean/fragment/host-less values never verify; delivery: in "
         "query and fragment mode the delivered string starts with the accepted URI and what follows the delimiter parses back to exactly the "
         "issued parameters, encoded values contain none of & = # ? space (value_cannot_escape); form_post: the escaped form of ANY string "
-        "contains no < > \" ' and an HTML parser recovers the issued value (escape_has_no_markup, unescape_escape). Tie: endpoint-level "
-        "correspondence on component-wise mutated redirect URIs for a web and a native client, and on full responses in the three modes with "
+        "contains no < > \" ' and an HTML parser recovers the issued value (escape_has_no_markup, unescape_escape); the end-session endpoint redirects only to a post_logout_redirect_uri registered for the client the ID token hint names (post_logout_target). Tie: endpoint-level "
+        "correspondence on component-wise mutated redirect URIs (incl. dropped / foreign query parts) for a web, a native and a dynamically registered client, RP-initiated logout with mutated post-logout URIs, and on full responses in the three modes with "
         "hostile state values; independent oracle with the RFC 3986 Appendix B split and html.parser.",
    note="PARTIAL: urllib's unquote/urlparse/parse_qs are at the interface (their components are inputs of the model); agreement of urllib with the "
-        "RFC split on clean strings is checked per case by the oracle, not proved. post_logout_redirect_uri goes through the same verify_uri "
-        "but the end-session endpoint glue is not driven yet.",
+        "RFC split on clean strings is checked per case by the oracle, not proved.",
    technique="Lean 4 proof (decision logic over parsed components; codec lemmas for delivery and HTML escaping) + endpoint correspondence on mutated URIs", ref="6 C06"),
  "C15": dict(
    text="Lean theorems for every string and every hash function H (uninterpreted): a token request passes PKCE only with a verifier that transforms "
@@ -123,7 +122,7 @@ CLAIMED = {
         "honoured at most once (induction with a freshness/no-duplicates invariant), unknown URNs refused; redeem_proceeds: a redemption "
         "proceeds only for an issued URN, only for the client that pushed it, only while now <= push time + announced lifetime, with the "
         "stored request. Tie: request objects built concretely with "
-        "cryptojwt across signer x inner client_id x registered-algorithm clients through the real authorization endpoint, and PAR histories "
+        "cryptojwt across signer x inner client_id x registered-algorithm clients through the real authorization endpoint (OIDC and OAuth2 flavour), request objects pushed by PAR, and PAR histories "
         "through the real pushed-authorization + authorization endpoints.",
    note="JWS verification idealised (field `verifies` from the harness's knowledge of the signing key); the request_uri fetch transport is not driven "
         "(its policy code predates the fix); JWE not modelled.",
@@ -140,8 +139,7 @@ CLAIMED = {
         "URI features are computed with urllib at the interface.",
    technique="Lean 4 proof (exhaustive decision table + freshness invariant by induction) + endpoint correspondence on registration histories", ref="6 C19"),
  "C18": dict(
-   text="Lean theorems for every user id, salt, sector and every hash H: the four publication points publish the grant's sub (with the forced "
-        "hypothesis that no user attribute named sub is released, and a counter-example theorem for it); sub is stable across logins; public "
+   text="Lean theorems for every user id, salt, sector and every hash H: the four publication points publish the grant's sub whatever attributes the user record holds (sub_consistent; a user attribute named sub never replaces it, after the fix); sub is stable across logins; public "
         "subjects equal across clients; pairwise subjects agree within a sector and — under the explicit hypothesis Function.Injective H — "
         "differ between sectors; different users get different public subjects; ephemeral subjects differ per grant; a public/pairwise sub is an "
         "image of H (the model's form of opacity); the endpoints compute the sub from the client's registered type and sector. Tie: login "
@@ -155,20 +153,20 @@ CLAIMED = {
         "mentions only keys from base claims, always-add claims, scope-derived claims (only with add_claims_by_scope) and the request's claims "
         "for that point (restriction_upper_bound, with dict.update semantics); every released attribute is named by the restriction, equals the "
         "stored attribute and matched its individual request (release_upper_bound, released_is_permitted); value/values requests only remove "
-        "(claims_match_monotone); nothing for a missing attribute. Tie: flows (code and id_token-only) on one long-lived provider over "
-        "per-point configurations x three clients x random scopes x claims objects; released attribute set at the four points compared with the "
+        "(claims_match_monotone); nothing for a missing attribute; the configuration that applies at a release point is the client's own when per-client rules are on and the module's otherwise, a hybrid-flow ID token does not inherit userinfo rules unless configured (resolvePoint / secondaryOf theorems), and introspection / token exchange answer a caller outside the token's audience with nothing (aud_gate_sound, outsider_sees_nothing). Tie: flows (code and id_token-only) on one long-lived provider over "
+        "per-point configurations x clients x random scopes x claims objects, hybrid response types, refresh, token exchange by the owner and by another client; released attribute set at the release points compared with the "
         "model; oracle: subset of the permitted bound, values equal stored, and the same flow on a fresh provider releases the same set.",
-   note="The per-client resolution (_client_claims) and scopes_to_claims are computed by the harness from the configuration it wrote; history "
+   note="scopes_to_claims is computed by the harness from the configuration it wrote; history "
         "independence is an oracle (aged vs fresh provider) here and a separation property in C20; invalid-token / audience clauses are C03/C04.",
    technique="Lean 4 proof (set-algebra upper bounds over association lists) + endpoint correspondence at the four release points", ref="6 C07"),
  "C04": dict(
    text="Lean theorems with NO assumption on the cipher/JWS layer (the handler layer is an arbitrary function `decode`): whatever an endpoint "
         "honours is string-equal to a token this provider minted, of a class the slot accepts and still active (honoured_is_minted, from the "
         "exact-value lookup); every string not equal to a minted value is refused in every slot (unminted_refused); with unique token values "
-        "the answering session is the minting one; the full slot x class separation table; genuine tokens of a wrong class refused. Tie: "
+        "the answering session is the minting one; the full slot x class separation table; genuine tokens of a wrong class refused; a bearer token accepted as CLIENT authentication is a live access token of this provider (bearer_auth_needs_live_access_token). Tie: "
         "worlds with many live sessions, byte-level and structural mutations of every genuine token (bit flips, truncation, extension, "
         "alphabet change, JWT segment swaps, alg rewrites, payload edits, re-signing with foreign keys, session ids as tokens) offered in "
-        "every slot of every endpoint; oracle: honoured implies minted with accepted class; refused probes leave the state unchanged.",
+        "every slot of every endpoint (incl. bearer client authentication with a claimed client_id, token exchange subject slots, the session manager's own lookups, providers sharing JWT keys); oracle: honoured implies minted with accepted class; refused probes leave the state unchanged.",
    note="DefaultToken.info / JWTToken.info / handler order sit at the interface (`decode`); 'expired signature' and 'foreign key' refusals are observed by "
         "correspondence; accepting behaviour of the mutating slots is C02/C03.",
    technique="Lean 4 proof (decision logic, crypto-independent) + mutation correspondence at every endpoint slot", ref="6 C04"),
@@ -198,7 +196,7 @@ CLAIMED = {
         "Corollaries: the algorithm is always the registered/configured/default one on the service path; outsiders (foreign keys, the issuer's "
         "public key as HMAC secret, keys of another known issuer) are never accepted; a rejected token is never stored. Tie: a real "
         "StandAloneClient with pending flows; genuine tokens signed by the harness and every single and random multiple mutation of claims, "
-        "header and signer under eight RP settings, delivered through both APIs at both endpoints; outcome and storage compared with the model; "
+        "header and signer under RP settings (incl. a client restored from an exported state and non-default clock skew), delivered through both APIs at the authorization, token and refresh paths and after a token exchange; outcome and storage compared with the model; "
         "oracle: an independent validator of the conjunction.",
    note="JWS verification and cryptojwt's key selection are the decision function sigOk over who signed (trusted: signature soundness); JWE-wrapped ID tokens and "
         "several keys of one family with a missing kid are not exercised.",
@@ -212,7 +210,7 @@ CLAIMED = {
         "(accept_is_local) and no other issuer's client (deliver_other_clients_untouched); and, by induction over ALL histories of begins and "
         "deliveries with arbitrary recombination, every recorded ID token carries the nonce sent for its state "
         "(recorded_token_has_own_nonce). Tie: histories over a real RPHandler with two issuers played by the harness, several pending flows, "
-        "responses recombined across flows and issuers; outcome and a canonical dump of every client's store compared with the model after "
+        "responses recombined across flows and issuers, plain OAuth2 clients beside OIDC ones; outcome and a canonical dump of every client's store compared with the model after "
         "every step; oracle: locality, no-op on rejection, nonce and subject of recorded data.",
    note="Validity of the ID tokens themselves is C08; logout bookkeeping (sid) and the composite RPHandler.finalize are checked by the oracle only.",
    technique="Lean 4 proof (invariant by induction over operation histories of a state-store model) + history correspondence with per-step store dump", ref="6 C09"),
